@@ -22,6 +22,12 @@ def cases(tier, seed):
         yield cid, {"specs": specs, "tier": tier}
     for i, seq in enumerate(C.mixing_sequences()):
         yield f"C01|mixing|{i:02d}|{seq[0][0]}", {"specs": seq, "tier": tier}
+    if tier == "quick":
+        # both ends of the stated ranges in the quick tier as well: the larger fields GF(32), GF(64) for BCH / RS-style codes, Hamming mu = 5, 6
+        extra = [s_ for s_ in C.bch("thorough", seed) if s_[2].get("mu") in (5, 6) and s_[2].get("delta") in (3, 5, 7, 11, 15, 21, 27, 31, 63) and "dtype" not in s_[2]]
+        extra += [s_ for s_ in C.hamming("thorough", seed) if s_[2].get("mu") in (5, 6) and isinstance(s_[2].get("info"), str)]
+        for i in range(0, len(extra), 4):
+            yield f"C01|{extra[i][0]}|x{i // 4:03d}|{extra[i][1]}..", {"specs": extra[i:i + 4], "tier": tier}
     # an encoder RESTORED from a checkpoint: B.load_state_dict(A.state_dict()) for two differently configured encoders of one class and size;
     # the restored object must again describe one code (all clauses are evaluated on it)
     for i, seq in enumerate(C.restore_pairs()):
